@@ -12,7 +12,7 @@ impl Parse for AddressRange {
             Some(AddressRange { start: be16(body, 0) as u16, count: be16(body, 2) as u16 })
         } else { None }
     }
-//@fn rodbus/src/common/parse.rs | Parse for AddressRange::parse | tags=C01,C02,C04,C07
+//@fn rodbus/src/common/parse.rs | Parse for AddressRange::parse | tags=C01,C02,C04,C07 | r10
 }
 impl Parse for Indexed<bool> {
     // address and coil value; only 0xFF00 (on) and 0x0000 (off) are defined [C01]
@@ -21,11 +21,11 @@ impl Parse for Indexed<bool> {
             Some(Indexed { index: be16(body, 0) as u16, value: be16(body, 2) == 0xFF00 })
         } else { None }
     }
-//@fn rodbus/src/common/parse.rs | Parse for Indexed<bool>::parse | tags=C01,C02,C04,C07
+//@fn rodbus/src/common/parse.rs | Parse for Indexed<bool>::parse | tags=C01,C02,C04,C07 | r10
 }
 impl Parse for Indexed<u16> {
     open spec fn spec_parse(body: Seq<u8>) -> Option<Self> {
         if body.len() >= 4 { Some(Indexed { index: be16(body, 0) as u16, value: be16(body, 2) as u16 }) } else { None }
     }
-//@fn rodbus/src/common/parse.rs | Parse for Indexed<u16>::parse | tags=C01,C02,C04,C07
+//@fn rodbus/src/common/parse.rs | Parse for Indexed<u16>::parse | tags=C01,C02,C04,C07 | r10
 }
